@@ -616,4 +616,137 @@ theorem readHandshake_spec (L : Limits) (lib : Lib) (h5 : 5 ≤ L.hdr) (s : St) 
       · intro cm B hcm h1 hrb hB
         exact f5 cm B hcm h1 (u1.raw_le cm B hcm h1 hrb hB) hB
 
+/-! ### Conn.Read -/
+
+structure AppSpec (L : Limits) (lib : Lib) (s : St) (s' : St) (r : Outcome Nat) : Prop where
+  total_le : s'.total ≤ s.total
+  hand_frozen : s.complete = true → L.refusePostHs = true → s'.hand = s.hand
+  complete_eq : s'.complete = s.complete
+  raw_le : ∀ cm B, (∀ m, lib.seg m ≤ cm) → 1 ≤ cm → s.raw.length ≤ B → L.hdr + L.maxCiphertext + cm ≤ B + 1 → s'.raw.length ≤ B
+  no_panic : r ≠ .panic
+  no_stuck : r ≠ .err .stuck
+
+theorem recSpec_frozen {L : Limits} {lib : Lib} {s : St} {e : Bool} {s' : St} {r : Outcome Unit}
+    (rs : RecSpec L lib s e s' r) (hc : s.complete = true) (hr : L.refusePostHs = true) : s'.hand = s.hand := by
+  rcases rs.hand_cases with h | ⟨d, _, _, _, h4, _⟩
+  · exact h
+  · exact absurd ⟨hc, hr⟩ h4
+
+theorem takeInput_spec (L : Limits) (lib : Lib) (h5 : 5 ≤ L.hdr) (s : St) :
+    AppSpec L lib s (takeInput L lib s).1 (takeInput L lib s).2 := by
+  unfold takeInput
+  simp only
+  have triv : AppSpec L lib s { s with input := 0 } (.ok s.input) :=
+    ⟨Nat.le_refl _, fun _ _ => rfl, rfl, fun _ _ _ _ h _ => h, by simp, by simp⟩
+  split
+  · rename_i t tl hraw
+    split
+    · have rs := readRecord_spec L lib false h5 { s with input := 0 }
+      generalize readRecord L lib { s with input := 0 } false = q at *
+      obtain ⟨s1, r1⟩ := q
+      simp only at rs ⊢
+      have tl' : s1.total ≤ s.total := rs.total_le
+      have ce : s1.complete = s.complete := rs.complete_eq
+      have fz : s.complete = true → L.refusePostHs = true → s1.hand = s.hand :=
+        fun a b => recSpec_frozen (s := { s with input := 0 }) rs a b
+      have rl : ∀ cm B, (∀ m, lib.seg m ≤ cm) → 1 ≤ cm → s.raw.length ≤ B → L.hdr + L.maxCiphertext + cm ≤ B + 1 → s1.raw.length ≤ B := rs.raw_le
+      cases r1 with
+      | ok u => exact ⟨tl', fz, ce, rl, by simp, by simp⟩
+      | err e => exact ⟨tl', fz, ce, rl, by simp, by intro h; injection h with h; exact rs.no_stuck (by rw [h])⟩
+      | panic => exact absurd rfl rs.no_panic
+    · exact triv
+  · exact triv
+
+theorem readApp_spec (L : Limits) (lib : Lib) (h5 : 5 ≤ L.hdr) (s : St) :
+    AppSpec L lib s (readApp L lib s).1 (readApp L lib s).2 := by
+  induction s using readApp.induct L lib with
+  | case1 s h =>
+    unfold readApp
+    simp only [h, ↓reduceIte, ne_eq, not_false_eq_true]
+    exact takeInput_spec L lib h5 s
+  | case2 s h s1 hr hi =>
+    have rs := readRecord_spec L lib false h5 s
+    rw [hr] at rs
+    have ts := takeInput_spec L lib h5 s1
+    unfold readApp
+    simp only [h, ↓reduceIte, hr, hi, ne_eq, not_false_eq_true]
+    have tl' : s1.total ≤ s.total := rs.total_le
+    have ce : s1.complete = s.complete := rs.complete_eq
+    have fz : s.complete = true → L.refusePostHs = true → s1.hand = s.hand := fun a b => recSpec_frozen rs a b
+    have rl : ∀ cm B, (∀ m, lib.seg m ≤ cm) → 1 ≤ cm → s.raw.length ≤ B → L.hdr + L.maxCiphertext + cm ≤ B + 1 → s1.raw.length ≤ B := rs.raw_le
+    exact ⟨by have := ts.total_le; omega, fun a b => by rw [ts.hand_frozen (by rw [ce]; exact a) b]; exact fz a b,
+      by rw [ts.complete_eq, ce], fun cm B hcm h1 hrb hB => ts.raw_le cm B hcm h1 (rl cm B hcm h1 hrb hB) hB, ts.no_panic, ts.no_stuck⟩
+  | case3 s h s1 hr hi hlt ih =>
+    have rs := readRecord_spec L lib false h5 s
+    rw [hr] at rs
+    unfold readApp
+    simp only [h, ↓reduceIte, hr, hi, hlt, ↓reduceDIte]
+    have tl' : s1.total ≤ s.total := rs.total_le
+    have ce : s1.complete = s.complete := rs.complete_eq
+    have fz : s.complete = true → L.refusePostHs = true → s1.hand = s.hand := fun a b => recSpec_frozen rs a b
+    have rl : ∀ cm B, (∀ m, lib.seg m ≤ cm) → 1 ≤ cm → s.raw.length ≤ B → L.hdr + L.maxCiphertext + cm ≤ B + 1 → s1.raw.length ≤ B := rs.raw_le
+    exact ⟨by have := ih.total_le; omega, fun a b => by rw [ih.hand_frozen (by rw [ce]; exact a) b]; exact fz a b,
+      by rw [ih.complete_eq, ce], fun cm B hcm h1 hrb hB => ih.raw_le cm B hcm h1 (rl cm B hcm h1 hrb hB) hB, ih.no_panic, ih.no_stuck⟩
+  | case4 s h s1 hr hi hnlt =>
+    exfalso
+    have rs := readRecord_spec L lib false h5 s
+    rw [hr] at rs
+    have hc : s1.total + L.hdr ≤ s.total := rs.consumed rfl
+    omega
+  | case5 s h s1 e hr =>
+    have rs := readRecord_spec L lib false h5 s
+    rw [hr] at rs
+    unfold readApp
+    simp only [h, ↓reduceIte, hr]
+    have tl' : s1.total ≤ s.total := rs.total_le
+    have ce : s1.complete = s.complete := rs.complete_eq
+    have fz : s.complete = true → L.refusePostHs = true → s1.hand = s.hand := fun a b => recSpec_frozen rs a b
+    have rl : ∀ cm B, (∀ m, lib.seg m ≤ cm) → 1 ≤ cm → s.raw.length ≤ B → L.hdr + L.maxCiphertext + cm ≤ B + 1 → s1.raw.length ≤ B := rs.raw_le
+    exact ⟨tl', fz, ce, rl, by simp, by intro h; injection h with h; exact rs.no_stuck (by rw [h])⟩
+  | case6 s h s1 hr =>
+    exfalso
+    have rs := readRecord_spec L lib false h5 s
+    rw [hr] at rs
+    exact rs.no_panic rfl
+
+/-! ### sequences of receive operations -/
+
+/-- the memory invariant: bounds on the handshake buffer and on the raw input buffer -/
+def MemInv (Bh Br : Nat) (s : St) : Prop := s.hand.length ≤ Bh ∧ s.raw.length ≤ Br
+
+theorem apply_inv (L : Limits) (lib : Lib) (h5 : 5 ≤ L.hdr) (hrf : L.refusePostHs = true) (cm Bh Br : Nat)
+    (hseg : ∀ m, lib.seg m ≤ cm) (h1 : 1 ≤ cm) (hBh : 4 + L.maxHandshake + L.maxPlaintext ≤ Bh + 1)
+    (hBr : L.hdr + L.maxCiphertext + cm ≤ Br + 1) (s : St) (op : Op) (hi : MemInv Bh Br s) :
+    MemInv Bh Br (apply L lib s op) := by
+  obtain ⟨ih, ir⟩ := hi
+  cases op with
+  | hs =>
+    have sp := readHandshake_spec L lib h5 s
+    exact ⟨sp.hand_le Bh ih hBh, sp.raw_le cm Br hseg h1 ir hBr⟩
+  | ccs =>
+    have sp := readRecord_spec L lib true h5 { s with nextCipher := true }
+    refine ⟨?_, sp.raw_le cm Br hseg h1 ir hBr⟩
+    show (readRecord L lib { s with nextCipher := true } true).1.hand.length ≤ Bh
+    rcases sp.hand_cases with h | ⟨d, _, _, _, _, _, h6⟩
+    · rw [h]; exact ih
+    · cases h6
+  | finish => exact ⟨ih, ir⟩
+  | read =>
+    show MemInv Bh Br (if s.complete = true then (readApp L lib s).1 else s)
+    split
+    · rename_i hc
+      have sp := readApp_spec L lib h5 s
+      exact ⟨by rw [sp.hand_frozen hc hrf]; exact ih, sp.raw_le cm Br hseg h1 ir hBr⟩
+    · exact ⟨ih, ir⟩
+
+theorem run_inv (L : Limits) (lib : Lib) (h5 : 5 ≤ L.hdr) (hrf : L.refusePostHs = true) (cm Bh Br : Nat)
+    (hseg : ∀ m, lib.seg m ≤ cm) (h1 : 1 ≤ cm) (hBh : 4 + L.maxHandshake + L.maxPlaintext ≤ Bh + 1)
+    (hBr : L.hdr + L.maxCiphertext + cm ≤ Br + 1) (ops : List Op) (s : St) (hi : MemInv Bh Br s) :
+    MemInv Bh Br (run L lib s ops) := by
+  induction ops generalizing s with
+  | nil => exact hi
+  | cons op ops ih =>
+    unfold run
+    exact ih _ (apply_inv L lib h5 hrf cm Bh Br hseg h1 hBh hBr s op hi)
+
 end Gotlcp.Lemmas.ParsersLoop
